@@ -468,6 +468,18 @@ def _check_property(prop, tier, seed, mine, scratch, findings, t0):
                 out_lines.append('VIOLATION property=C19 replay=%s%s' % (rp, '' if rec.get('inputs') else ' no-failing-input-found'))
             elif verdict == 'undecided':
                 undecided.append('structural: ' + msg)
+        # Header::parse uses slice patterns (outside Verus): a loop-free Kani harness over 48 symbolic bytes and a symbolic length
+        import kani_engine
+        verdict, msg, play = kani_engine.run_single('src/local/mod.rs', os.path.join(VERIF, 'kani', 'harness_hdr.rs'), 'verif_harness_hdr', 'header_parse_total', scratch)
+        structural.append({'check': 'Header::parse never panics and accepts only complete TZif headers (Kani/CBMC, loop-free, inputs up to 48 bytes: the function reads 44)',
+                           'verdict': verdict, 'detail': msg})
+        if verdict == 'violation':
+            nviol += 1
+            rp = os.path.join(VERIF, 'replays', 'C19-kani-header_parse.json')
+            json.dump({'property': 'C19', 'obligation': 'kani harness header_parse_total', 'function': 'Header::parse', 'verus_output': msg, 'inputs': play}, open(rp, 'w'), indent=1)
+            out_lines.append('VIOLATION property=C19 replay=%s%s' % (rp, '' if play else ' no-failing-input-found'))
+        elif verdict == 'undecided':
+            undecided.append('kani Header::parse: ' + msg)
 
     # ---------------- evidence ----------------
     wall = time.time() - t0
